@@ -1,5 +1,5 @@
 import SeqVerif.Model.ProxyFracInv
-import SeqVerif.Model.ActiveConcStep
+import SeqVerif.Model.ActiveConcQuiet
 import SeqVerif.Model.C07Cfg
 /-!
 # C07 - concurrent ingest, search, fetch, sealing and rotation never corrupt readers
@@ -152,14 +152,14 @@ end ProxyFrac
 section ActiveConc
 open SV.ActiveConc
 
-/-- **reader_sound** (negation-free queries).  For every interleaving of any number of index workers and
-readers: every LID a search returns is the LID of a document of a submitted bulk, lies inside the published
-[From, To] and inside the requested range, already has its position stored with a block index below the
-current `DocBlocks` length (so an immediate fetch through a new provider finds it), and satisfies the query.
-
-Full statement (all queries) is FALSE for the code as it is - see `c07_reader_unsound_not`; it holds for every
-query once `_all_` is queued last (`c07_reader_sound_fixed_order`, TODO in the model of the repaired order). -/
-theorem c07_reader_sound_partial (c : Cfg) (s : St) (h : Reachable c s) (i l : Nat) (hl : l ∈ (s.rs i).result) :
+/-- **reader_sound, negation-free queries, every configuration** (also the code as first read).  For every
+interleaving of any number of index workers and readers: every LID a search returns is the LID of a document of a
+submitted bulk, lies inside the published [From, To] and inside the requested range, already has its position stored
+with a block index below the current `DocBlocks` length (so an immediate fetch through a new provider finds it), and
+satisfies the query.  For queries with NOT this is false unless `_all_` is queued last AND `TokenList.Append` is one
+critical section (`c07_reader_unsound_not`, `c07_reader_unsound_dict`); with both it holds for every query:
+`c07_reader_sound_partial` below. -/
+theorem c07_reader_sound_positive (c : Cfg) (s : St) (h : Reachable c s) (i l : Nat) (hl : l ∈ (s.rs i).result) :
     ∃ d, s.sh.ids[l]? = some d ∧ d ∈ s.sh.submitted ∧ inR s.sh.range d.mid = true ∧
       (s.rs i).qfrom ≤ d.mid ∧ d.mid ≤ (s.rs i).qto ∧
       (∃ b off, s.sh.pos.lookup d.id = some (b, off) ∧ b < s.sh.blocks) ∧
@@ -171,7 +171,100 @@ theorem c07_reader_sound_partial (c : Cfg) (s : St) (h : Reachable c s) (i l : N
   obtain ⟨b, off⟩ := p
   exact ⟨d, hd, hi.sh.idsSub d hmem, (hi.rs i).range _ hr, h1, h2, ⟨b, off, hp, hi.sh.posOk _ b off hp⟩, h3⟩
 
-/-- **Defect witness (reader unsound for NOT).**  `addLIDsToTokens` queues `_all_` first; a reader whose mapping
+/-- **reader_sound.**  FULL STATEMENT (for the configuration of the tree, `SV.C07.cfg`): for every interleaving of any
+number of index workers and readers and EVERY query (negations included), each LID a search returns belongs to a
+document of a submitted bulk, lies inside the published [From, To] and the requested range, has its position stored
+below the current `DocBlocks` length, and the document satisfies the query.
+PROVED HERE under the extra hypothesis `c.tlLock = true` (`TokenList.Append` is one critical section, i.e. no token
+is being registered while another `Append` that met it as existing publishes documents), together with
+`c.allLast = true` (in the tree since fix cfd4713).  MISSING for the tree: `SV.C07.cfg.tlLock = false` - the open
+finding c07-token-registration-race; without it the statement is false (`c07_reader_unsound_dict`).  For
+negation-free queries it holds in every configuration (`c07_reader_sound_positive`). -/
+theorem c07_reader_sound_partial (c : Cfg) (hc : c.allLast = true ∧ c.tlLock = true) (s : St) (h : Reachable c s) (i l : Nat)
+    (hl : l ∈ (s.rs i).result) :
+    ∃ d, s.sh.ids[l]? = some d ∧ d ∈ s.sh.submitted ∧ inR s.sh.range d.mid = true ∧
+      (s.rs i).qfrom ≤ d.mid ∧ d.mid ≤ (s.rs i).qto ∧
+      (∃ b off, s.sh.pos.lookup d.id = some (b, off) ∧ b < s.sh.blocks) ∧ sat (s.rs i).q d = true := by
+  obtain ⟨d, h1, h2, h3, h4, h5, h6, _⟩ := c07_reader_sound_positive c s h i l hl
+  refine ⟨d, h1, h2, h3, h4, h5, h6, ?_⟩
+  obtain ⟨hi, hi2⟩ := inv2_reachable c hc s h
+  have hdone : (s.rs i).pc = .done := by
+    cases e : (s.rs i).pc <;> first | rfl | (have := (hi.rs i).noRes (by simp [e]); rw [this] at hl; cases hl)
+  have hmap := ((hi.rs i).res l hl).1
+  exact (((hi2.rs i).res hdone l hmap d h1).mp hl).2.2.2
+
+/-- ... and nothing of the snapshot is missed: a finished search returns EXACTLY the documents of its mapping
+snapshot that are in range and satisfy the query (so two searches over the same snapshot agree, whatever the writers
+did in between - the reader-side half of `quiescent_eq_sequential`) -/
+theorem c07_reader_exact_partial (c : Cfg) (hc : c.allLast = true ∧ c.tlLock = true) (s : St) (h : Reachable c s) (i l : Nat)
+    (d : Doc) (hpc : (s.rs i).pc = .done) (hl : l ∈ (s.rs i).mapping) (hd : s.sh.ids[l]? = some d) :
+    l ∈ (s.rs i).result ↔
+      (inR (s.rs i).range d.mid = true ∧ (s.rs i).qfrom ≤ d.mid ∧ d.mid ≤ (s.rs i).qto ∧ sat (s.rs i).q d = true) :=
+  ((inv2_reachable c hc s h).2.rs i).res hpc l hl d hd
+
+/-- what `_all_` shows is complete: every LID visible in `_all_` is already in the list of every token of its document,
+and those tokens can be found by readers (repaired code) - the writer-side half -/
+theorem c07_all_implies_tokens_partial (c : Cfg) (hc : c.allLast = true ∧ c.tlLock = true) (s : St) (h : Reachable c s)
+    (l : Nat) (d : Doc) (hl : l ∈ s.sh.all) (hd : s.sh.ids[l]? = some d) (t : Nat) (ht : t ∈ d.toks) :
+    l ∈ s.sh.tok t ∧ t ∈ s.sh.dict :=
+  (inv2_reachable c hc s h).2.sh.allTok l d hl hd t ht
+
+/-- **quiescent, writer side** (every configuration).  Once every index worker that took a task has called
+`Wg.Done` (all writers idle or done), every document that got a LID is listed in `_all_` and its MID is inside the
+published [From, To]: all acknowledged documents are visible. -/
+theorem c07_quiescent_visible (c : Cfg) (s : St) (h : Reachable c s)
+    (hq : ∀ i, (s.ws i).pc = .idle ∨ (s.ws i).pc = .done) (l : Nat) (d : Doc) (hd : s.sh.ids[l]? = some d) :
+    l ∈ s.sh.all ∧ inR s.sh.range d.mid = true := by
+  have h3 := inv3_reachable c s h
+  have hi := inv_reachable c s h
+  have hl : l < s.sh.ids.length := by
+    rcases Nat.lt_or_ge l s.sh.ids.length with h' | h'
+    · exact h'
+    · rw [List.getElem?_eq_none h'] at hd; cases hd
+  obtain ⟨i, k, a1, a2, a3⟩ := h3.owner l hl
+  have hdone : (s.ws i).pc = .done := by
+    rcases hq i with e | e
+    · simp [afterIds, e] at a1
+    · exact e
+  have hf : finished (s.ws i).pc := Or.inr hdone
+  refine ⟨a2 ▸ h3.allDone i hf k a3, ?_⟩
+  have hdk : (s.ws i).docs[k]? = some (s.ws i).docs[k] := by simp [a3]
+  have := (hi.ws i).2.2.2.1 (by simp [hdone]) (by simp [hdone]) (by simp [hdone]) (by simp [hdone]) k _ hdk
+  rw [a2, hd] at this
+  cases this
+  exact h3.rangeDone i hf _ (List.getElem_mem a3)
+
+/-- **quiescent_eq_sequential** (set level; `_partial`: proved under `c.tlLock = true`, see `c07_reader_sound_partial`).  In a quiescent state, a finished search whose snapshots
+were taken in that state (its mapping is the current `_all_`, its Info copy the current range) returns EXACTLY the
+LIDs of the documents that are in the requested range and satisfy the query - a function of the set of indexed
+documents only, not of the order or interleaving in which the bulks arrived. -/
+theorem c07_quiescent_eq_sequential_partial (c : Cfg) (hc : c.allLast = true ∧ c.tlLock = true) (s : St) (h : Reachable c s)
+    (hq : ∀ i, (s.ws i).pc = .idle ∨ (s.ws i).pc = .done) (i : Nat) (hpc : (s.rs i).pc = .done)
+    (hmap : (s.rs i).mapping = s.sh.all) (hrange : (s.rs i).range = s.sh.range) (l : Nat) (d : Doc)
+    (hd : s.sh.ids[l]? = some d) :
+    l ∈ (s.rs i).result ↔ ((s.rs i).qfrom ≤ d.mid ∧ d.mid ≤ (s.rs i).qto ∧ sat (s.rs i).q d = true) := by
+  obtain ⟨hall, hin⟩ := c07_quiescent_visible c s h hq l d hd
+  have := c07_reader_exact_partial c hc s h i l d hpc (by rw [hmap]; exact hall) hd
+  rw [hrange] at this
+  rw [this]
+  constructor
+  · rintro ⟨_, a, b, c'⟩; exact ⟨a, b, c'⟩
+  · rintro ⟨a, b, c'⟩; exact ⟨hin, a, b, c'⟩
+
+/-- non-vacuity: two bulks indexed by two workers in an interleaved order, then a `NOT` search in the quiescent state -/
+example : ∃ s, run ⟨true, true, true⟩ init
+    [.wNew 0 [⟨3, 1, [5]⟩], .wNew 1 [⟨4, 1, [6]⟩], .wBlock 1, .wBlock 0, .wPos 0, .wPos 1, .wIds 1, .wIds 0, .wTokGet 0, .wToks 0,
+     .wTokGet 1, .wQueue 0, .wToks 1, .wQueue 1, .wQueue 1, .wQueue 0, .wStats 1, .wStats 0, .wDone 0, .wDone 1,
+     .rNew 0 (.not (.tok 5)) 0 10, .rInfo 0, .rBlocks 0, .rMapping 0, .rMids 0, .rRids 0, .rLeaf 0, .rEval 0] = some s ∧
+    (∀ i, i < 2 → (s.ws i).pc = .done) ∧ (s.rs 0).mapping = s.sh.all ∧ (s.rs 0).range = s.sh.range ∧
+    (s.rs 0).result = [0] ∧ s.sh.ids[0]? = some ⟨4, 1, [6]⟩ := by decide
+
+/-- non-vacuity of the full theorem: with the repaired configuration the schedule of `c07_reader_unsound_not` is still a
+path, and the reader now returns nothing for `NOT 5` -/
+example : ∃ s, run ⟨true, true, true⟩ init witnessNot = some s ∧ (s.rs 0).result = [] ∧ (s.rs 0).mapping = [0] := by
+  decide
+
+/-- **Defect witness (reader unsound for NOT, code as first read).**  `addLIDsToTokens` queues `_all_` first; a reader whose mapping
 snapshot falls between that call and the call for token 5 sees the new document in the universe but not in the
 token's list, so `NOT 5` returns LID 1 although document 1 carries token 5. -/
 theorem c07_reader_unsound_not (live lk : Bool) :
@@ -203,11 +296,11 @@ theorem c07_reader_in_bounds (c : Cfg) (s : St) (h : Reachable c s) (i : Nat)
   have h2 := hr.mapRids hpc
   omega
 
-/-- **fetch_sound** (partial: needs "the ID was indexed before the provider was created").  If `AppendIDs` of a
+/-- **fetch_sound, part 1: an indexed document is found** (an ID that is not indexed yet is legitimately "not found"; part 2 = no fetch ever fails: `c07_fetch_fixed_sound`).  If `AppendIDs` of a
 document happened before the provider took its `DocBlocks` snapshot (`nidsAt` is `len(MIDs)` at that moment -
 true in particular for every ID an earlier search returned), fetching it finds its position and the block index
 is inside the snapshot. -/
-theorem c07_fetch_sound_partial (c : Cfg) (s : St) (h : Reachable c s) (i : Nat) (id : ID) (res : FetchRes)
+theorem c07_fetch_finds_indexed (c : Cfg) (s : St) (h : Reachable c s) (i : Nat) (id : ID) (res : FetchRes)
     (hf : (id, res) ∈ (s.rs i).fetched) (l : Nat) (d : Doc) (hl : l < (s.rs i).nidsAt)
     (hd : s.sh.ids[l]? = some d) (hid : d.id = id) : ∃ b off, res = .found b off :=
   ((inv_reachable c s h).rs i).fetched id res hf l d hl hd hid
@@ -248,7 +341,7 @@ theorem c07_writer_lids (c : Cfg) (s : St) (h : Reachable c s) (i : Nat) (t : Op
     ∃ d, s.sh.ids[l]? = some d ∧ ∀ t', t = some t' → t' ∈ d.toks :=
   ((inv_reachable c s h).ws i).2.2.2.2 t ls hm l hl
 
-/-- non-vacuity of `c07_reader_sound_partial`: a search that overlaps a second bulk returns the first document -/
+/-- non-vacuity of `c07_reader_sound_positive` / `c07_reader_sound_partial`: a search that overlaps a second bulk returns the first document -/
 example : ∀ c, ∃ s, run c init
     [.wNew 0 [⟨3, 1, [5, 6]⟩, ⟨4, 1, [6]⟩], .wBlock 0, .wPos 0, .wIds 0, .wTokGet 0, .wToks 0, .wQueue 0, .wQueue 0, .wQueue 0,
      .wStats 0, .wDone 0, .wNew 1 [⟨3, 2, [5]⟩], .rNew 0 (.and (.tok 6) (.tok 5)) 0 10, .rInfo 0, .wBlock 1, .rBlocks 0,
@@ -272,6 +365,9 @@ theorem c07_x_writer_order :
 `wToks`); whether the whole of it is one critical section is read off as `SV.C07.cfg.tlLock` -/
 theorem c07_x_token_list_append :
     tokenListAppendOrder = ["getTokenLIDs", "createTIDs", "fillFieldTIDs", "fillSizes"] := by decide
+
+/-- the three repairs that are in the tree are seen by the extractor (the models used by the driver follow them) -/
+theorem c07_x_repairs_seen : SV.C07.fx = true ∧ SV.C07.cfg.allLast = true ∧ SV.C07.cfg.live = true := by decide
 
 /-- `getIDsIndex` takes the mapping first, then MIDs, then RIDs -/
 theorem c07_x_reader_order :
